@@ -77,6 +77,25 @@ Fixpoint agree_loop (vw : view) (active : option term) (es : list pat) (G : list
       end
   end.
 
+Definition item_var (i : pitem) : var := match i with PVar x => x | PAgg _ _ al => al end.
+
+(* variables in scope (may be bound) *)
+Fixpoint sposs (p : pat) {struct p} : list var :=
+  match p with
+  | PBgp tps => flat_map tp_vars tps
+  | PGroup es => (fix go (es : list pat) : list var := match es with [] => [] | e :: r => sposs e ++ go r end) es
+  | PUnion gs => (fix go (es : list pat) : list var := match es with [] => [] | e :: r => sposs e ++ go r end) gs
+  | PGraph g q => tm_vars g ++ sposs q
+  | PFilter _ => []
+  | PBind _ v => [v]
+  | PValues vs _ => vs
+  | PSub s => match s with
+              | Sel _ None w _ _ _ => sposs w
+              | Sel _ (Some items) _ _ _ _ => map item_var items
+              end
+  end.
+
+
 (* the fragment on which lowering = algebra is proved *)
 Definition lone (g : ggp) : bool := match g with GFilter _ | GBindP _ _ => true | _ => false end.
 Definition elem_ok (e : pat) : bool :=
@@ -86,6 +105,7 @@ Definition gv_free (gv : option var) (vs : list var) : bool :=
 Definition simple_sel (pr : option (list pitem)) (gb : list var) (lim : option N) : bool :=
   match pr, gb, lim with
   | Some items, [], None => forallb (fun i => match i with PVar _ => true | PAgg _ _ _ => false end) items
+  | None, [], None => true              (* SELECT star: every variable of the pattern, nothing to project away *)
   | _, _, _ => false
   end.
 
@@ -93,14 +113,28 @@ Definition simple_sel (pr : option (list pitem)) (gb : list var) (lim : option N
    - no sub-select under a variable graph (class C01-subselect-in-graph-var);
    - FILTER / BIND inside GRAPH ?gv do not mention ?gv (such a filter is either not wellscoped or sees a variable
      the pattern binds itself - the latter is left to the correspondence check);
-   - a nested group does not consist of a single FILTER or BIND (the parser flattens it into the enclosing group:
-     class C01-bind-target-sibling when the target is bound outside, harmless otherwise - left to the check);
-   - sub-selects have an explicit projection and no aggregate / GROUP BY / LIMIT (stage 2 of the proof; the other
+   - a nested group does not consist of a single FILTER (never wellscoped: its filter mentions a variable and its group has
+     none in scope) nor of a single BIND, except a BIND of constants whose target is not in scope before it (the parser
+     flattens such groups into the enclosing group: class C01-bind-target-sibling when the target is bound before);
+   - sub-selects (explicit projection or SELECT star) have no aggregate / GROUP BY / LIMIT (stage 2 of the proof; the other
      sub-selects are covered by the correspondence check only). *)
+(* a nested group that consists of a single BIND of constants whose target is not in scope before it: the parser flattens
+   it into the enclosing group, which is harmless exactly then *)
+Definition lone_bind_ok (e : pat) (pacc : list var) : bool :=
+  match e with
+  | PGroup [PBind args v] => (match barg_vars args with [] => true | _ => false end) && negb (mem_var v pacc)
+  | _ => false
+  end.
+
 Fixpoint fragB (gv : option var) (p : pat) {struct p} : bool :=
   match p with
   | PBgp _ | PValues _ _ => true
-  | PGroup es => (fix go (es : list pat) : bool := match es with [] => true | e :: r => fragB gv e && elem_ok e && go r end) es
+  | PGroup es =>
+      (fix go (es : list pat) (pacc : list var) {struct es} : bool :=
+         match es with
+         | [] => true
+         | e :: r => fragB gv e && (elem_ok e || lone_bind_ok e pacc) && go r (pacc ++ sposs e)
+         end) es []
   | PUnion gs => (fix go (gs : list pat) : bool := match gs with [] => true | g :: r => fragB gv g && go r end) gs
   | PGraph g q => fragB (match g with TV x => Some x | TC _ => None end) q
   | PFilter f => gv_free gv (expr_vars f)
@@ -119,3 +153,9 @@ Inductive scope_rel (ds : dataset) (ev : eview) : gterm -> option term -> mu -> 
 | SR_var : forall x n, is_named_visible ev n && graph_exists ds n = true -> scope_rel ds ev (GVar x) (Some n) [(x, n)].
 
 Definition gv_of (scope : gterm) : option var := match scope with GVar x => Some x | _ => None end.
+
+Fixpoint fragB_loop (gv : option var) (es : list pat) (pacc : list var) : bool :=
+  match es with
+  | [] => true
+  | e :: r => fragB gv e && (elem_ok e || lone_bind_ok e pacc) && fragB_loop gv r (pacc ++ sposs e)
+  end.
